@@ -149,6 +149,8 @@ Definition step (s0 : st) (o : op) : res :=
   | Assign b =>
       if negb (b <? n)%nat then Thrown
       else if negb (startable (acts s b)) then Unmod                   (* migration / xbt_assert *)
+      else if (match a_kind (acts s b) with KComm => a_assigned (acts s b) | _ => false end) then Unmod
+                                                   (* CommImpl::set_source: xbt_assert(from_ == nullptr) *)
       else let x := set_assigned (acts s b) (now s) in
            match a_kind x with
            | KComm => (* set_source/set_destination call start() whatever the state (payload > 0) *)
@@ -282,6 +284,18 @@ Definition run_c13 (l : list Z) : list Z :=
   let '(stat, k, s) := go init_st 0 ops in
   [stat; k; Z.of_nat (nacts s)] ++ flat_map (fun i => enc_act (acts s i)) (seq 0 (nacts s)) ++ [now s]
   ++ flat_map enc_ev (rev (trace s)).
+
+(** positions of the operations that leave the modelled domain (the generator drops them) *)
+Fixpoint skips (s : st) (k : Z) (ops : list op) : list Z :=
+  match ops with
+  | [] => []
+  | o :: r => match step s o with
+              | Ok s' => skips s' (k + 1) r
+              | Thrown => []
+              | Unmod => k :: skips s (k + 1) r
+              end
+  end.
+Definition run_c13_skips (l : list Z) : list Z := skips init_st 0 (decode_ops (length l) l).
 
 (** the oracle on a log: events encoded as  0 opcode.. date | 1 b date | 2 b date ; answer = [verdict; index] *)
 Fixpoint decode_evs (fuel : nat) (l : list Z) : list ev :=
